@@ -214,6 +214,14 @@ func (P *Program) LoadContracts() error {
 		// thin safety-only contracts of the no-panic sweep (generated list, see DESIGN.md 5 C05)
 		{filepath.Join(P.RepoDir, "engine", "verif_sweep.go"), "engine"},
 	}
+	// further contract files of the same kind (verif_contracts_<topic>.go), in name order, after the main ones
+	for _, g := range []struct{ dir, pkg string }{{filepath.Join(P.RepoDir, "engine"), "engine"}, {P.RepoDir, "prolog"}} {
+		more, _ := filepath.Glob(filepath.Join(g.dir, "verif_contracts_*.go"))
+		sort.Strings(more)
+		for _, m := range more {
+			files = append(files, struct{ path, pkg string }{m, g.pkg})
+		}
+	}
 	for _, f := range files {
 		if _, err := os.Stat(f.path); err != nil {
 			continue
